@@ -108,13 +108,28 @@ var c06Laws = []c06law{
 		func(x, y float64) []LValue {
 			return []LValue{sep, n_(x), LNil, LNil, n_(0), sep, n_(y), LNil, sep, n_(x), n_(y), LNil, n_(0), sep, n_(1), n_(2), sep, n_(x), n_(y), n_(3), n_(2), n_(4), n_(5)}
 		}},
+	// an error raised inside a wrapped coroutine that was called from a created coroutine which does not catch
+	// it: the resumer of the outer one receives (false, that very value); both are dead afterwards
+	{`local inner; local outer = coroutine.create(function() inner = coroutine.wrap(function() coroutine.yield(1); error({code = x}) end); inner(); inner(); return 'not reached' end)
+	  local ok, e = coroutine.resume(outer); emit(ok, type(e), type(e) == 'table' and e.code, coroutine.status(outer))
+	  local o2 = coroutine.create(function() local w = coroutine.wrap(function() error(y) end); w() end); emit(coroutine.resume(o2))`,
+		func(x, y float64) []LValue {
+			return []LValue{sep, LFalse, s_("table"), n_(x), s_("dead"), sep, LFalse, n_(y)}
+		}},
+	// a wrapped coroutine failing inside another coroutine: that coroutine is still the running one, and the
+	// failed wrapper is dead (not running) when called again
+	{`local co = coroutine.create(function() local w = coroutine.wrap(function() error(x) end); local ok, e = pcall(w); emit(ok, e, coroutine.running() == me, coroutine.status(me)); local ok2 = pcall(w); emit(ok2); coroutine.yield(y); return 5 end)
+	  me = co; emit(coroutine.resume(co)); emit(coroutine.status(co)); emit(coroutine.resume(co)); emit(coroutine.status(co), coroutine.running())`,
+		func(x, y float64) []LValue {
+			return []LValue{sep, LFalse, n_(x), LTrue, s_("running"), sep, LFalse, sep, LTrue, n_(y), sep, s_("suspended"), sep, LTrue, n_(5), sep, s_("dead"), LNil}
+		}},
 }
 
 var sep LValue = LString("\x00sep")
 
 // C06.laws — coroutine value transfer, status and error laws with symbolic payloads.
 //
-//verif:harness prop=C06 tier=quick bounds="15 law templates (<= 3 coroutines, <= 6 resumes each): transfer in both directions with 0..3 values, status incl. normal/running, errors and faults inside coroutines, wrap, generators, nested resumes, dead/running resume, tail-called yield; payloads 2 symbolic float64"
+//verif:harness prop=C06,C05 tier=quick bounds="17 law templates (<= 3 coroutines, <= 6 resumes each): transfer in both directions with 0..3 values, status incl. normal/running, errors and faults inside coroutines, wrap, generators, nested resumes, dead/running resume, tail-called yield, errors crossing wrap inside resume, wrap failing inside another coroutine; payloads 2 symbolic float64"
 func H_C06_laws() {
 	k := VChoice(len(c06Laws))
 	law := c06Laws[k]
